@@ -48,14 +48,18 @@
     * the converter's mode mapping is a `Placement` for all qubit counts / pairs / gate positions
       (`converter_layout_ok`, `converter_mode_map_is_placement`, `converter_gates_share_no_herald`), and a placed
       gate is an admissible step (`placed_gate_is_step`).
+  Round 5 (section "(8)" at the end), proved for all gate sequences of one- and two-qubit gates:
+    * THE LABELLING the converter computes always satisfies the cut condition (`labelling_satisfies_cut_condition`,
+      `labelling_passes_cut_check`, `labelled_cnot_is_separated`): `_find_max_ralph_pairs` returns the FIRST acyclic
+      subset of the largest size in `itertools.combinations` order of the REVERSED CNOT list, so by an exchange
+      argument every CNOT labelled post-processed has its two qubits separated by a set of qubits closed under ALL
+      the two-qubit gates that follow it; `cutCheck` DECIDES the condition (`cut_check_decides`: sound and complete);
+      hence `converted_circuit_implements_product_labelled` needs no hypothesis on the labelling any more.  The
+      pinned labelling (CNOTs only in the interaction graph) fails it (`pinned_labelling_fails_cut_check`), and an
+      arbitrary maximal forest is not enough (`other_maximal_forest_fails_cut_check`);
   What is still NOT proved (validated per instance by the correspondence, see manifest.d/C20.json):
     * the other multi-photon catalog matrices (KLM CNOT — algebraic but not done —, post-processed CCZ, Toffoli, the
       n-qubit controlled rotations for all angles, optimiser-fitted one-qubit gates);
-    * that the LABELLING the converter computes always passes `cutCheck` (a purely combinatorial statement about
-      `_find_max_ralph_pairs`' candidate order: the post-processed CNOTs are the lexicographically first maximal
-      forest of the REVERSED CNOT list, so every heralded CNOT that follows a post-processed one has its qubits
-      connected by later post-processed CNOTs / other two-qubit gates).  The driver evaluates `cutCheck` on the
-      labels the REAL code produced for every converted circuit and on every enumerated CNOT sequence;
     * the `PERM` of a SWAP as a step (its `Step.Ok` is a hypothesis of `converted_circuit_implements_product`).
 -/
 import PercevalModel.Lemmas.C20
@@ -66,6 +70,7 @@ import PercevalModel.Lemmas.C20Place
 import PercevalModel.Lemmas.C20HeraldedCz
 import PercevalModel.Lemmas.C20Dfs
 import PercevalModel.Lemmas.C20Catalog
+import PercevalModel.Lemmas.C20LabelCut
 import Mathlib.Analysis.Real.Sqrt
 import Mathlib.Data.Complex.Basic
 
@@ -997,5 +1002,88 @@ example : cutCheck (convShape true [⟨"cx", [0, 1]⟩, ⟨"cz", [1, 2]⟩]
 example : gateModes 3 2 0 1 = [4, 5, 0, 1, 8, 9] ∧ (convLayout 3 [1, 1, 0, 0]).ok = true := by decide
 
 -- the five relations of the heralded CNOT are those of the heralded CZ (`heralded_cz_params_exist`)
+
+/-! ### (8) the labelling `label_cnots_in_gate_sequence` computes satisfies the cut condition
+(`Lemmas/C20Label.lean`: graph lemmas on `Forest`, exchange along `itertools.combinations`;
+`Lemmas/C20LabelCut.lean`: shape of the converted circuit, completeness of `cutCheck`) -/
+
+/-- **every CNOT labelled post-processed is separated from what follows it**: with `cn` the CNOT qubit pairs in
+circuit order and `X` the qubit pairs of the other two-qubit gates, if the `i`-th flag computed by
+`_gate_list_optimized_cnots` is "post-processed" then some set `A` of qubits contains the control, not the data
+qubit, and no LATER CNOT (of either kind) and no other two-qubit gate of the circuit leaves `A` -/
+theorem labelled_cnot_is_separated (cn X : List Edge) (i : ℕ)
+    (h : (assign cn.reverse (findMaxRalph cn.reverse X)).reverse[i]? = some true) :
+    ∃ e, cn[i]? = some e ∧ ∃ A : ℕ → Prop, Closed A (cn.drop (i + 1) ++ X) ∧ A e.1 ∧ ¬ A e.2 :=
+  label_cut cn X i h
+
+/-- what `_find_max_ralph_pairs` returns: nothing, or the FIRST acyclic subset of its size in the order
+`itertools.combinations` produces them (and no larger subset is acyclic: `ralph_pairs_maximal`) -/
+theorem find_max_ralph_is_first (P X : List Edge) :
+    findMaxRalph P X = [] ∨
+      ∃ r, (combos r P).find? (fun S => forestB (S ++ X)) = some (findMaxRalph P X) :=
+  findMaxRalph_first P X
+
+/-- **the labelling satisfies the cut condition** — `CutShape`, the hypothesis `CutOk` of
+`leaky_circuit_implements_product` read on the shape of the converted circuit — for every gate sequence of one-
+and two-qubit gates (the converter raises NotImplementedError on wider ones) in which no foreign gate carries the
+internal name "postprocessed cnot" -/
+theorem labelling_satisfies_cut_condition (gs : List Gate)
+    (hq : ∀ g ∈ gs, g.qubits.length = 1 ∨ g.qubits.length = 2)
+    (hname : ∀ g ∈ gs, isCnot g = false → g.name.toUpper ≠ "POSTPROCESSED CNOT") :
+    CutShape (convShape true gs (labelCnots true gs)) :=
+  label_cutShape gs hq hname
+
+/-- the executable check decides the cut condition (sound AND complete: the computed component is the least
+closed set) -/
+theorem cut_check_decides (sh : List (List ℕ × Bool)) : cutCheck sh = true ↔ CutShape sh := cutCheck_iff sh
+
+/-- the check the driver evaluates on the real labels of every converted circuit can never fail on the labels of
+the (repaired) labelling -/
+theorem labelling_passes_cut_check (gs : List Gate)
+    (hq : ∀ g ∈ gs, g.qubits.length = 1 ∨ g.qubits.length = 2)
+    (hname : ∀ g ∈ gs, isCnot g = false → g.name.toUpper ≠ "POSTPROCESSED CNOT") :
+    cutCheck (convShape true gs (labelCnots true gs)) = true :=
+  label_cutCheck gs hq hname
+
+/-- **a converted circuit whose shape is the one the converter computes for the source gate sequence `src`
+implements the product of its gates** — no hypothesis on the labelling is left -/
+theorem converted_circuit_implements_product_labelled [Field R] [CharZero R] {L : Layout} (hok : L.ok = true)
+    (hhL : ∀ p ∈ L.heralds, p.2 ≤ 1) (ps : PS)
+    (hps : ∀ b : List Bool, b.length = L.qubits.length → ps.eval (encode L b) = true)
+    (r h c2 s2 : R) (hr : 3 * r * r = 1) (hh : 2 * h * h = 1) (hc : 6 * c2 * c2 = 3 + 6 * h * r)
+    (hs : 6 * s2 * s2 = 3 - 6 * h * r) (hcs : 2 * c2 * s2 = r)
+    (gs : List (ConvGate L R)) (hgood : ∀ g ∈ gs, g.Good)
+    (src : List Gate) (hq : ∀ g ∈ src, g.qubits.length = 1 ∨ g.qubits.length = 2)
+    (hname : ∀ g ∈ src, isCnot g = false → g.name.toUpper ≠ "POSTPROCESSED CNOT")
+    (hshape : (convSteps r h c2 s2 gs).map (fun s => (s.Q, s.leaky)) = convShape true src (labelCnots true src))
+    (hp : (convSteps r h c2 s2 gs).Pairwise (fun g g' => ∀ hd ∈ L.heralds, hd.1 ∉ g.S ∨ hd.1 ∉ g'.S)) :
+    gateTable (PM.C02.circuitMatrix ((convSteps r h c2 s2 gs).map (·.U))) L ps =
+      (((convSteps r h c2 s2 gs).map (·.c)).prod) •
+        (convSteps r h c2 s2 gs).foldl (fun M g => g.G * M) 1 :=
+  conv_circuit_implements hok hhL ps hps r h c2 s2 hr hh hc hs hcs gs hgood
+    (by rw [hshape]; exact label_cutCheck src hq hname) hp
+
+/-- the labelling of the pinned code (only CNOTs enter the interaction graph) fails the cut condition:
+`cx(0,1); cz(0,1)` — the post-processed CNOT's qubits are reconnected by the CZ -/
+theorem pinned_labelling_fails_cut_check :
+    cutCheck (convShape true [⟨"cx", [0, 1]⟩, ⟨"cz", [0, 1]⟩]
+      (labelCnots false [⟨"cx", [0, 1]⟩, ⟨"cz", [0, 1]⟩])) = false := by decide +kernel
+
+/-- being a maximal forest is not enough, the ORDER of the candidates matters: for `cx(0,1); cx(0,1)` labelling
+the FIRST CNOT post-processed is also a maximal forest and violates the cut condition; the code labels the last -/
+theorem other_maximal_forest_fails_cut_check :
+    cutCheck (convShape true [⟨"cx", [0, 1]⟩, ⟨"cx", [0, 1]⟩] ["postprocessed cnot", "heralded cnot"]) = false ∧
+    labelCnots true [⟨"cx", [0, 1]⟩, ⟨"cx", [0, 1]⟩] = ["heralded cnot", "postprocessed cnot"] := by
+  decide +kernel
+
+-- non-vacuity: a sequence with three CNOTs around a triangle, a CZ and a SWAP meets the hypotheses, two CNOTs are
+-- labelled post-processed and the check passes
+example : let gs : List Gate := [⟨"cx", [0, 1]⟩, ⟨"h", [2]⟩, ⟨"cx", [1, 2]⟩, ⟨"cz", [2, 3]⟩, ⟨"cx", [2, 0]⟩,
+      ⟨"swap", [3, 4]⟩]
+    (∀ g ∈ gs, g.qubits.length = 1 ∨ g.qubits.length = 2) ∧
+    (∀ g ∈ gs, isCnot g = false → g.name.toUpper ≠ "POSTPROCESSED CNOT") ∧
+    labelCnots true gs = ["heralded cnot", "h", "postprocessed cnot", "cz", "postprocessed cnot", "swap"] ∧
+    cutCheck (convShape true gs (labelCnots true gs)) = true := by
+  decide +kernel
 
 end PM.C20
